@@ -216,12 +216,28 @@ def lines_for_bytes(p, nbytes, sparse):
     return nbytes // per + 2
 
 
+def huge_read_battery():
+    """full reads of more than 4 MiB (line sizes that do and do not divide 64 KiB), dense with a few pauses"""
+    out = []
+    for p, n in ((8, 440000), (98, 44000), (14, 280000)):
+        h = Hist(p)
+        h.new()
+        h.pushrun(1700000000, 3, n // 2, 3)
+        h.pushrun(h.last() + 100000, 1, n - n // 2, 4)
+        h.op("len")
+        h.op("read_all s=U e=U")
+        h.op(f"read_first_n n={n} s=U e=U")
+        out.append((f"huge-read-p{p}", h.script()))
+    return out
+
+
 def gen_C01(rng, tier):
     out = all_bytes_battery(["read_all s=U e=U"]) + marker_word_battery(["read_all s=U e=U"])
     out += payload_marker_battery(["read_all s=U e=U"])
     out += mixed_session_battery(rng, ["read_all s=U e=U"])
     out += reader_buffer_end_battery(tier, ["read_all s=U e=U"])
     out += payload_sweep_battery(["read_all s=U e=U"])
+    out += huge_read_battery()
     # directed: sparse series spanning several read buffers, so that consecutive
     # 16 KiB boundaries split sections (every payload class)
     for p in ([0, 1, 2, 3, 4, 8] if tier == "quick" else [0, 1, 2, 3, 4, 5, 8, 16, 200]):
@@ -410,8 +426,33 @@ def gen_C14(rng, tier):
                                                               f"n_lines s=I:{T2 - 5} e=I:{L - 2}", f"read_all s=I:{T2 - 5} e=I:{L - 2}"]))
 
 
+def big_section_tail_battery():
+    """sections LARGER than a 16 KiB scan buffer with consecutive timestamps: first-n reads and the paging
+    loop whose start falls on the last lines of such a section (the last section and an earlier one)"""
+    out = []
+    for p, n in ((8, 2001), (0, 9000)):
+        for later in (False, True):
+            h = Hist(p)
+            h.new()
+            h.pushrun(10000, 1, n, 3)
+            last = h.last()
+            if later:
+                h.pushrun(last + 100000, 10, 50, 4)
+            for st in (last, last - 1, last - 2):
+                h.op(f"read_first_n n=5 s=I:{st} e=U")
+                h.op(f"read_first_n n=5 s=E:{st - 1} e=U")
+                h.op(f"read_first_n n=1 s=I:{st} e=I:{last}")
+                h.op(f"read_all s=I:{st} e=I:{last + 5}")
+            for pg in (n - 1, n - 2, 1000, 667, 400):
+                h.op(f"page n={pg}")
+            out.append((f"big-section-tail-p{p}" + ("-later" if later else ""), h.script()))
+    return out
+
+
 def gen_C13(rng, tier):
     out = buffer_end_start_sweep(tier, lambda s: [f"read_first_n n=100000 s=I:{s} e=U"])
+    out += big_section_tail_battery()
+    out += [(n, sc) for n, sc in full_section_battery("read_first_n n=7 s={s} e={e}")]
     # the read calls APPEND to the caller's vectors: with items already in them the answer is the same
     for p in (0, 4):
         h = Hist(p)
